@@ -89,7 +89,14 @@ def generate(rng, tier):
             cfg += 'ignore = ["%s"]\n' % os.path.basename(g)
             ignored[str(i)] = g
             if rng.chance(70):
-                files[g] = files[g] + "fn ig%d() { let _ = 0b12; }\n" % i
+                # what the ignored file gives the parser to say: an error it recovers from, a mere warning, or an error
+                # inside a cfg_if! arm (which the module resolver parses on its own)
+                files[g] = files[g] + rng.choice([
+                    "fn ig%d() { let _ = 0b12; }\n" % i,
+                    "fn ig%d() { let _ = 0b12; }\n" % i,
+                    'fn ig%d() { let _s = "a\\\n\n   b"; }\n' % i,
+                    "cfg_if::cfg_if! { if #[cfg(unix)] { struct Ig%d { a: u8 b: u8 } } }\n" % i,
+                ])
         if cfg:
             files["c%d/rustfmt.toml" % i] = cfg
     # a module file outside every crate directory, declared by two or more of the roots through #[path]: what an
